@@ -263,7 +263,8 @@ def digitsVal (d : Bytes) : Option Nat :=
   if d ≠ [] ∧ d.all (fun b => 48 ≤ b.toNat ∧ b.toNat ≤ 57) then some (d.foldl (fun a b => a * 10 + (b.toNat - 48)) 0) else none
 
 /-- the text is `Y…Y-MM-DDThh:mm:ssZ` (year at least 4 digits, zero padded) and denotes the Unix
-    second `secs` in the proleptic Gregorian calendar *defined by* `daysFromCivil` -/
+    second `secs` in the proleptic Gregorian calendar *defined by* `daysFromCivil` (evaluated through its
+    closed form `daysFromCivilClosed`, equal to it by `C18_daysFromCivil_closed`) -/
 def isoDenotes (txt : Bytes) (secs : Nat) : Bool :=
   let n := txt.length
   if n < 20 then false else
@@ -277,7 +278,7 @@ def isoDenotes (txt : Bytes) (secs : Nat) : Bool :=
     sep 0 45 && sep 3 45 && sep 6 84 && sep 9 58 && sep 12 58 && sep 15 90 &&
     (ylen == 4 || (txt.headD 0).toNat != 48) &&
     validCivil y mo d && hh < 24 && mi < 60 && ss < 60 &&
-    daysFromCivil y mo d * 86400 + hh * 3600 + mi * 60 + ss == secs
+    daysFromCivilClosed y mo d * 86400 + hh * 3600 + mi * 60 + ss == secs   -- = daysFromCivil: validCivil gives y ≥ 1970
   | _, _, _, _, _, _ => false
 
 def isLowerCode (l : List Nat) : Bool := l.length == 3 && l.all fun c => 97 ≤ c && c ≤ 122
